@@ -260,6 +260,9 @@ func (e *Engine) contractTexts(fn *ssa.Function, fc *FuncContract) []string {
 		for _, cs := range c.CallSites {
 			texts = append(texts, cs.Clause.Text)
 		}
+		for _, cl := range c.AtReturn {
+			texts = append(texts, cl.Text)
+		}
 	}
 	add(fc)
 	seen := map[*ssa.Function]bool{}
@@ -527,6 +530,7 @@ func (e *Engine) verifyShard(fn *ssa.Function, fc *FuncContract, opts VerifyOpts
 			x.panicPaths++
 			if fc.NoPanic {
 				ob := x.oblig(x.curFnName+"/nopanic", "nopanic", fc.Props, fn.Pos(), "function does not exit by panic")
+				st2.trace = append(st2.trace, fmt.Sprintf("PANIC(%v) choices=%s", o.PanicVal, st2.choices))
 				x.check(st2, ob, "false")
 			}
 			env := x.postEnv(st2, fr, nil)
